@@ -231,9 +231,11 @@ let lane_paged args =
         let items = List.filter (fun x -> x.[0] <> 'd') (upto parts) and d = List.find (fun x -> x.[0] = 'd') parts in
         let it x = let k = nat_of_int (int_of_string (String.sub x 1 (String.length x - 1))) in (match x.[0] with 'e' -> Entry k | 'r' -> Ref k | _ -> Inter k) in
         (match String.split_on_char '.' (String.sub d 1 (String.length d - 1)) with
-         | [rc; ck; no] ->
+         | rc :: ck :: no :: posl ->
              let others = List.init (int_of_string no) (fun k -> COther (nat_of_int (100 + k))) in
-             let cs = (if ck = "none" then [] else [CPaged (n_of_int 0, bytes_of_hex ck)]) @ others in
+             let pos = min (match posl with [p] -> int_of_string p | _ -> 0) (int_of_string no) in
+             let rec ins i l = if i = 0 then CPaged (n_of_int 0, bytes_of_hex ck) :: l else (match l with x :: r -> x :: ins (i - 1) r | [] -> [CPaged (n_of_int 0, bytes_of_hex ck)]) in
+             let cs = if ck = "none" then others else ins pos others in
              { p_items = List.map it items; p_result = { rc1 = n_of_decimal rc; ctrls = cs } }
          | _ -> failwith "page result") in
       let pgs = List.map parse_page (String.split_on_char ';' pages) in
@@ -261,7 +263,8 @@ let lane_paged args =
              let (sz, ck) = (match List.find_opt (function CPaged _ -> true | _ -> false) q.q_ctrls with Some (CPaged (sz, ck)) -> (decimal_of_n sz, hex_of_bytes ck) | _ -> ("none", "none")) in
              Printf.sprintf "%s/%s/%d/%d" sz ck (List.length (List.filter (function COther _ -> true | _ -> false) q.q_ctrls)) (if q.q_params = params then 1 else 0) in
            let fin = match Some fres with
-             | Some r -> Printf.sprintf "rc=%s paged_in_final=%d others=%d" (decimal_of_n r.rc1) (if List.exists is_paged r.ctrls then 1 else 0) (List.length (List.filter (fun c -> not (is_paged c)) r.ctrls))
+             | Some r -> Printf.sprintf "rc=%s paged_in_final=%d others=%s" (decimal_of_n r.rc1) (if List.exists is_paged r.ctrls then 1 else 0)
+                           (String.concat "+" (List.filter_map (function COther k -> Some (string_of_int (int_of_nat k - 100)) | _ -> None) r.ctrls))
              | None -> "nores" in
            Printf.sprintf "items=[%s] end=%s %s wire=[%s] left=%s//%s%s" (String.concat "," (List.map show_it items))
              (match st_before with Done0 -> "done" | Active0 -> "active" | SError1 -> "error" | Closed0 -> "closed") fin (String.concat ";" (List.map show_req s'.wire)) left_s left_s
